@@ -155,10 +155,11 @@ def shrink(spec, case, outdir):
     best = case
     chunk = max(1, len(ops) // 2)
     budget = 60
-    while chunk >= 1 and budget > 0:
+    deadline = time.time() + float(os.environ.get("VERIF_SHRINK_S", "90"))  # shrinking is best effort and time-boxed
+    while chunk >= 1 and budget > 0 and time.time() < deadline:
         i = 0
         progressed = False
-        while i < len(ops) and budget > 0:
+        while i < len(ops) and budget > 0 and time.time() < deadline:
             cand = ops[:i] + ops[i + chunk:]
             budget -= 1
             r = fails(cand) if cand else None
